@@ -1,5 +1,6 @@
 import FparserModel.Proofs.ReaderWalk
 import FparserModel.Proofs.ReaderFree
+import FparserModel.Proofs.ReaderJoin
 
 /-!
 # Props/Reader — property theorems of the reader model M-B
@@ -115,7 +116,70 @@ theorem item_span_bounds_single (r r' : Rd) (x : Item) (h : FifoOK r)
   have := hp.item h x rfl
   exact ⟨this.1, this.2.1, this.2.2, hp.le.lc⟩
 
+/-! ## (d)/(e) free-form continuation, clean case -/
+
+/-- C04 `join_continuation` (clean case: no quotes / `!` / `&` inside the pieces; arbitrary label
+    and construct name on the first line; comment and blank lines between continuation lines;
+    optional leading `&`; arbitrary indentation): `_next` delivers exactly ONE `Line` whose text
+    is the stripped concatenation of the pieces, span = (first, last physical line); the comment
+    lines inside the statement are queued behind it, each once, in order, with its own line number
+    (C11 `read_comments_once` for one statement), and nothing else is consumed.
+    Partial w.r.t. the design's `read_layout_invariant`: character literals cut by a continuation
+    and the induction over a list of statements are not covered (validated by co-simulation). -/
+theorem join_continuation (r0 : Rd) (l1 l2 : Str) (ls rest : List Str) (t1 b1 : Str)
+    (lab : Option Nat) (nam : Option Str) (c : CLine) (cs : List CLine)
+    (hfifo : r0.fifo = []) (h1 : r0.filo = []) (h2 : r0.closed = false) (h3 : r0.isFree = true)
+    (h4 : r0.omp = false) (hsrc : r0.src = l1 :: l2 :: (ls ++ rest))
+    (hcpp : startsWith (lstrip (cook l1)) ['#'] = false)
+    (hlab : extractLabel (cook l1) = (lab, t1)) (hnam : extractName t1 = (nam, b1 ++ ['&']))
+    (hb1 : CleanBody b1) (hc2 : cook l2 = c.text) (hck : Cooked ls cs) (hw : WFc (c :: cs))
+    (hne : strip (b1 ++ joinPieces (c :: cs)) ≠ [])
+    (hsemi : (stringReplaceMap (strip (b1 ++ joinPieces (c :: cs))) true).1.contains ';' = false) :
+    next1 r0 =
+      (.ok (.line (strip (b1 ++ joinPieces (c :: cs))) lab nam (r0.linecount + 1)
+              (r0.linecount + 2 + cs.length)),
+       { r0 with src := rest, linecount := r0.linecount + 2 + cs.length,
+                 linesRev := ((l1 :: l2 :: ls).map cook).reverse ++ r0.linesRev,
+                 fifo := joinComments (r0.linecount + 2) (c :: cs) }) := by
+  have hg := getSourceItem_join r0 l1 l2 ls rest t1 b1 lab nam c cs hfifo h1 h2 h3 h4 hsrc hcpp hlab hnam
+    hb1 hc2 hck hw hne
+  obtain ⟨n, hn⟩ := nextRawFuel_pos r0
+  unfold next1
+  rw [hn]
+  unfold nextRaw popOrRead
+  simp only [hfifo, hg, Item.isComment, Bool.false_and, Bool.false_eq_true, if_false]
+  apply splitSemicolon_stable
+  intro text l nm s e hv
+  simp only [Item.lineView, Option.some.injEq, Prod.mk.injEq] at hv
+  rw [← hv.1]; exact hsemi
+
 /-! ## non-vacuity and witnesses -/
+
+/-- an instance of `join_continuation`: label, name, leading `&`, a comment and a blank line inside -/
+example :
+    next1 (Rd.mk' ["10 nm: x = &".toList, "  ! note".toList, "".toList, "   & a + &".toList, " b".toList,
+                   "y = 2".toList] true false false false []) =
+      (.ok (.line "x =  a +  b".toList (some 10) (some "nm".toList) 1 5),
+       { Rd.mk' ["10 nm: x = &".toList, "  ! note".toList, "".toList, "   & a + &".toList, " b".toList,
+                 "y = 2".toList] true false false false [] with
+         src := ["y = 2".toList], linecount := 5,
+         linesRev := [" b".toList, "   & a + &".toList, [], "  ! note".toList, "10 nm: x = &".toList],
+         fifo := [.comment "! note".toList 2 2 false] }) := by
+  have h := join_continuation
+    (Rd.mk' ["10 nm: x = &".toList, "  ! note".toList, "".toList, "   & a + &".toList, " b".toList,
+             "y = 2".toList] true false false false [])
+    "10 nm: x = &".toList "  ! note".toList ["".toList, "   & a + &".toList, " b".toList] ["y = 2".toList]
+    "nm: x = &".toList "x = ".toList (some 10) (some "nm".toList)
+    (.comment "  ! note".toList)
+    [.blank, .cont "   ".toList " a + ".toList true true, .cont " ".toList "b".toList false false]
+    rfl rfl rfl rfl rfl rfl (by decide) (by decide) (by decide)
+    (by unfold CleanBody NoC; decide) (by decide)
+    (Cooked.cons (by decide) (Cooked.cons (by decide) (Cooked.cons (by decide) Cooked.nil)))
+    (by simp only [WFc, CLine.ok, CLine.isLast, CleanBody, Blanks, NoC]; decide)
+    (by decide) (by decide)
+  rw [h]
+  decide +kernel
+
 
 def mkFree (src : List String) (ic : Bool := true) : List Rd :=
   [Rd.mk' (src.map String.toList) true ic false false []]
